@@ -421,12 +421,14 @@ std::vector<std::string> Cells(int tier) {
       }
     }
   }
-  if (tier > 0) {
-    for (const char* pol : {"FirstFail", "None"}) {
-      for (const char* form : {"static", "dynamic", "join-dynamic-void", "shared-dynamic"}) {
-        for (const char* pat : {"VVV", "EVV", "VEX", "EEV", "XEE", "VVE"}) {
-          cells.push_back(std::string{"form="} + form + ",pol=" + pol + ",n=3,pat=" + pat + ",keep=0");
+  // three inputs: every success / failure pattern
+  for (const char* pol : {"FirstFail", "None"}) {
+    for (const char* form : {"static", "dynamic", "static-void", "join-dynamic-void", "shared-dynamic"}) {
+      for (const char* pat : {"VVV", "EVV", "VEV", "VVE", "EEV", "EVE", "VEE", "EEE", "XVV", "VEX", "XEE"}) {
+        if (tier == 0 && std::string{form} == "shared-dynamic" && std::string{pat}.find('X') != std::string::npos) {
+          continue;
         }
+        cells.push_back(std::string{"form="} + form + ",pol=" + pol + ",n=3,pat=" + pat + ",keep=0");
       }
     }
   }
@@ -436,12 +438,8 @@ std::vector<std::string> Cells(int tier) {
 bool CellBounds(const vx::Cell& cell, int tier, vx::Bounds& b) {
   const int n = cell.Int("n", 2);
   const bool shared = cell.Str("form").find("shared") != std::string::npos || cell.Is("form", "mixed");
-  if (n == 3) {
-    b.P = 2;
-  } else {
-    b.P = tier == 0 ? 2 : 3;
-  }
-  b.S = shared ? 1 : 0;
+  b.P = tier == 0 ? 2 : 3;
+  b.S = 1;
   b.T = 0;
   return true;
 }
